@@ -11,6 +11,7 @@ C['peptacular.mass_calc:_parse_charge_adducts_mass'] = dict(
 )
 _TYPES = "(ion_type in MONOISOTOPIC_FRAGMENT_ADJUSTMENTS)"
 C['peptacular.mass_calc:adjust_mass'] = dict(
+    pure=True,
     params=dict(base_mass='real', charge='Optional[int]', ion_type='str', monoisotopic='bool', isotope='int', loss='real',
                 charge_adducts='Optional[str]', precision='Optional[int]'),
     returns='real',
@@ -32,6 +33,7 @@ C['peptacular.mass_calc:adjust_mass'] = dict(
     canary=[('loss-twice', 'implies(precision is None, result == exact + loss)')],
 )
 C['peptacular.mass_calc:adjust_mz'] = dict(
+    pure=True,
     params=dict(base_mass='real', charge='Optional[int]', precision='Optional[int]'),
     returns='real',
     ghost=dict(q='0 if charge is None else some(charge)'),
@@ -41,3 +43,21 @@ C['peptacular.mass_calc:adjust_mz'] = dict(
         ('rounded', 'implies(precision is not None, result == round((base_mass if q == 0 else base_mass / q), some(precision)))'),
     ],
 )
+
+# ---------------------------------------------------------------- consequences used by C05 (ion series): every statement about the ion-offset
+# TABLES checked by ground/c05_tables.py holds for the ions of EVERY base mass, because an ion is its base mass plus its type's table entries
+_T = "((MONOISOTOPIC_FRAGMENT_ION_ADJUSTMENTS[t] + MONOISOTOPIC_FRAGMENT_ADJUSTMENTS[t]) if mono else (AVERAGE_FRAGMENT_ION_ADJUSTMENTS[t] + AVERAGE_FRAGMENT_ADJUSTMENTS[t]))"
+_FRAGT = "(t in MONOISOTOPIC_FRAGMENT_ADJUSTMENTS) and t != 'p' and t != 'n'"
+LEMMAS = [
+    ('singly-charged-ion-is-its-base-mass-plus-the-table-offsets-of-its-type',
+     'forall(lambda B=real, t=str, mono=bool: implies(' + _FRAGT + ', adjust_mass(B, 1, t, mono, 0, 0.0, None, None) == B + ' + _T + '))'),
+    ('each-further-charge-adds-one-proton',
+     'forall(lambda B=real, t=str, mono=bool, q=int: implies(' + _FRAGT + ' and q >= 1, '
+     'adjust_mass(B, q + 1, t, mono, 0, 0.0, None, None) == adjust_mass(B, q, t, mono, 0, 0.0, None, None) + PROTON_MASS))'),
+    ('complementary-b-and-y-ions-sum-to-the-two-spans-plus-both-offsets',
+     "forall(lambda B=real, Y=real, mono=bool: adjust_mass(B, 1, 'b', mono, 0, 0.0, None, None) + adjust_mass(Y, 1, 'y', mono, 0, 0.0, None, None) == "
+     "B + Y + " + _T.replace('[t]', "['b']") + " + " + _T.replace('[t]', "['y']") + ")"),
+    ('a-modification-shifts-exactly-the-ions-whose-base-mass-contains-it',
+     'forall(lambda B=real, d=real, t=str, mono=bool, q=int: implies(' + _FRAGT + ' and q >= 1, '
+     'adjust_mass(B + d, q, t, mono, 0, 0.0, None, None) == adjust_mass(B, q, t, mono, 0, 0.0, None, None) + d))'),
+]
